@@ -163,8 +163,10 @@ class Interp:
                  param_roles: bool = True,
                  loops: str = "once",
                  noreturn_calls: Sequence[str] = (),
+                 role_locals: Sequence[str] = (),
                  pure_calls: Sequence[str] = ()):
         self.noreturn_calls = set(noreturn_calls)
+        self.role_locals = set(role_locals)
         self.fa = fa
         self.roles = list(roles)
         self.role_by_name = {r.name: r for r in self.roles}
@@ -472,7 +474,7 @@ class Interp:
                 return (BOOL, False)
             return (SYM, e.text)
         if isinstance(e, C.Id):
-            if e.name in env.vars_all() and e.targs is None:
+            if e.name in env.vars_all() and e.targs is None and e.name not in self.role_locals:
                 v = env.lookup(e.name)
                 if v is not None:
                     return v
@@ -537,7 +539,7 @@ class Interp:
 
     def _mutate(self, target: C.Node, env: "Env", op: str):
         canon = env.canon(target)
-        if isinstance(target, C.Id) and target.name in env.vars_all():
+        if isinstance(target, C.Id) and target.name in env.vars_all() and target.name not in self.role_locals:
             v = env.lookup(target.name)
             if v is not None and v[0] == NUM:
                 env.assign(target.name, (NUM, v[1] + (1 if op == "++" else -1)))
@@ -646,10 +648,12 @@ class Interp:
             self.eval(e.r, env)
             return self._mutate(e.l, env, e.op)
         v = self.eval(e.r, env)
-        if isinstance(e.l, C.Id) and e.l.name in env.vars_all() and e.l.name not in env.canon.aliases:
+        if isinstance(e.l, C.Id) and e.l.name in self.role_locals:
+            pass
+        elif isinstance(e.l, C.Id) and e.l.name in env.vars_all() and e.l.name not in env.canon.aliases:
             env.assign(e.l.name, v)
             return v
-        if isinstance(e.l, C.Id) and e.l.name in env.vars_all() and env.lookup(e.l.name) is not None:
+        if isinstance(e.l, C.Id) and e.l.name not in self.role_locals and e.l.name in env.vars_all() and env.lookup(e.l.name) is not None:
             env.assign(e.l.name, v)
             env.canon.aliases.pop(e.l.name, None)
             return v
